@@ -496,18 +496,18 @@ class World:
         if a is None:
             ex.pending_raise(st, ExcVal(TypeError, line=line))
             return
-        case = entry.select(**a)
+        case = entry.select(a)
         if case is None:
             raise NeedsContract(f"call to {entry.qualname} at line {line} matches no declared case: "
                                 f"{ {k: _tname(v) for k, v in a.items()} }")
         self.contracts_used.add(f"{entry.qualname}[{case.name}]")
-        for label, f in case.requires(**a):
+        for label, f in case.requires(a):
             ex.oblige(st, f, "pre", f"{entry.qualname}.{label}", line=line)
             if f is False:
                 return
             st.assume(f)
         conds = []
-        for exc, label, cond in case.raises(**a):
+        for exc, label, cond in case.raises(a):
             if cond is False:
                 continue
             s_r = st.fork(cond if cond is not True else None, f"L{line}!{exc.__name__}")
@@ -521,10 +521,10 @@ class World:
         if conds and not ex.feasible(st):
             return
         if case.has_value():
-            yield st, case.value(**a)
+            yield st, case.value(a)
             return
-        r = case.result(ex.fresh, **a)
-        for label, f in case.ensures(r, **a):
+        r = case.result(ex.fresh, a)
+        for label, f in case.ensures(r, a):
             st.assume(f)
         yield st, r
 
